@@ -1566,7 +1566,8 @@ async fn expand_assignment_value(
 ) -> Result<ast::AssignmentValue, error::Error> {
     let expanded = match value {
         ast::AssignmentValue::Scalar(s) => {
-            let expanded_word = expansion::basic_expand_assignment_word(shell, params, s).await?;
+            let expanded_word =
+                expansion::basic_expand_scalar_assignment_value(shell, params, s).await?;
             ast::AssignmentValue::Scalar(ast::Word::from(expanded_word))
         }
         ast::AssignmentValue::Array(arr) => {
@@ -1626,7 +1627,8 @@ async fn apply_assignment(
     let new_value = match &assignment.value {
         ast::AssignmentValue::Scalar(unexpanded_value) => {
             let value =
-                expansion::basic_expand_assignment_word(shell, params, unexpanded_value).await?;
+                expansion::basic_expand_scalar_assignment_value(shell, params, unexpanded_value)
+                    .await?;
             ShellValueLiteral::Scalar(value)
         }
         ast::AssignmentValue::Array(unexpanded_values) => {
